@@ -7,7 +7,7 @@
 //! brute-force ranking of the live nodes that currently carry label and vector, under the DECLARED
 //! metric (ties: any order inside a tie group). All indexes stay far below 128 entries, the regime
 //! in which the code searches exactly, so the oracle is strict.
-use samyama::graph::{GraphStore, NodeId, PropertyValue};
+use samyama::graph::{GraphStore, PropertyValue};
 use samyama::query::executor::Value;
 use samyama::query::QueryEngine;
 use serde_json::json;
@@ -164,7 +164,9 @@ impl Ref {
             return;
         }
         for e in self.entries.iter_mut() {
-            if e.node == node && !e.dead {
+            // a correct index holds one entry per node id: a new vector for that id replaces whatever
+            // is filed under it, including the entry of a deleted node whose id has been reused
+            if e.node == node {
                 e.superseded = true;
             }
         }
